@@ -474,9 +474,12 @@ func buildSpecs() []*Spec {
 	add(&Spec{Name: "AUTH", Class: Framework, Gen: func(b *B) {
 		b.cmd("AUTH")
 		if b.R.Bool() {
+			// two-argument form: cutting before the password leaves a well-formed one-argument AUTH
 			b.key("pos", "username", true)
+			b.key("pos", "password", false)
+		} else {
+			b.key("pos", "password", true)
 		}
-		b.key("pos", "password", true)
 	}})
 	add(&Spec{Name: "CONFIG", Class: Framework, Gen: func(b *B) {
 		b.cmd("CONFIG")
@@ -533,8 +536,6 @@ func buildSpecs() []*Spec {
 				pattern = string(b.R.From([]byte("ab*?."), 1+b.R.Intn(4)))
 				b.push([]byte(pattern), Slot{Role: "optarg", Kind: KStr, Required: true, Name: "pattern"})
 			} else {
-				b.V.Slots = append(b.V.Slots, Slot{})
-				b.V.Slots = b.V.Slots[:len(b.V.Slots)-1]
 				count = b.integer("optarg", "count", true, 1, 10, 100, 1000)
 			}
 		}
